@@ -734,6 +734,8 @@ func Span(dst []float64, l, u float64) []float64 {
 	for i := range dst {
 		dst[i] = l + step*float64(i)
 	}
+	// The last element is u, not u subject to the rounding of l + step*(n-1).
+	dst[len(dst)-1] = u
 	return dst
 }
 
